@@ -836,3 +836,54 @@ Proof.
   pose proof (params_ok_keys (query_base e) (get_keys e) [bs "events"] [bs "page"; bs "query"] Hb Hg (or_intror eq_refl)) as H3.
   rewrite !app_nil_r in H1. rewrite !app_nil_r in H2. rewrite H1, H2, H3. reflexivity.
 Qed.
+
+(* ---- several entities in one file ---------------------------------------------------------------- *)
+Lemma ref_resolves_mono : forall D D' t,
+  incl D D' -> ref_resolves D t = true -> ref_resolves D' t = true.
+Proof.
+  intros D D' t Hi H. unfold ref_resolves in *.
+  assert (L : forall (b : bool) n,
+            existsb (fun d => Bool.eqb (fst d) b && bytes_eqb (snd d) n) D = true ->
+            existsb (fun d => Bool.eqb (fst d) b && bytes_eqb (snd d) n) D' = true).
+  { intros b n Hx. apply existsb_exists in Hx. destruct Hx as [d [Hd Hp]].
+    apply existsb_exists. exists d. split; [now apply Hi|assumption]. }
+  destruct t as [pt k|p n|p n|p n]; [reflexivity| | |]; destruct p; try assumption; now apply L.
+Qed.
+
+Lemma closed_app : forall a b, closed a = true -> closed b = true -> closed (a ++ b) = true.
+Proof.
+  intros a b Ha Hb. rewrite closed_unfold in *. rewrite fields_of_app, defined_app, forallb_app.
+  apply andb_true_iff. split; apply forallb_forall; intros f Hf.
+  - rewrite forallb_forall in Ha. specialize (Ha f Hf). unfold resolves in *.
+    eapply ref_resolves_mono; [|exact Ha]. apply incl_appl, incl_refl.
+  - rewrite forallb_forall in Hb. specialize (Hb f Hf). unfold resolves in *.
+    eapply ref_resolves_mono; [|exact Hb]. apply incl_appr, incl_refl.
+Qed.
+
+Lemma compile_ok_inv : forall e cs, compile e = Ok cs -> expand e = Ok cs /\ closed cs = true.
+Proof.
+  intros e cs H. unfold compile in H. destruct (expand e) as [c| | |] eqn:E; try discriminate.
+  destruct (closed c) eqn:Ec; [|discriminate]. destruct (fields_ok e); [|discriminate].
+  destruct (query_params_ok e && command_params_ok e); [|discriminate]. inversion H; subst. auto.
+Qed.
+
+(* a file of entities compiles to the concatenation of the entities' own expansions ... *)
+Theorem compile_all_inv : forall es cs, compile_all es = Ok cs ->
+  exists l, Forall2 (fun e c => compile e = Ok c) es l /\ cs = concat l.
+Proof.
+  induction es as [|e r IH]; intros cs H; cbn [compile_all] in H.
+  - inversion H. exists []. split; [constructor|reflexivity].
+  - destruct (compile e) as [a| | |] eqn:Ea; try discriminate.
+    destruct (compile_all r) as [b| | |] eqn:Eb; try discriminate. inversion H; subst.
+    destruct (IH b eq_refl) as [l [HF ->]]. exists (a :: l). split; [constructor; assumption|reflexivity].
+Qed.
+
+(* ... which is closed as a whole: an entity's references never depend on its neighbours *)
+Theorem compile_all_closed : forall es cs, compile_all es = Ok cs -> closed cs = true.
+Proof.
+  induction es as [|e r IH]; intros cs H; cbn [compile_all] in H.
+  - inversion H. reflexivity.
+  - destruct (compile e) as [a| | |] eqn:Ea; try discriminate.
+    destruct (compile_all r) as [b| | |] eqn:Eb; try discriminate. inversion H; subst.
+    apply closed_app; [exact (proj2 (compile_ok_inv e a Ea))|now apply IH].
+Qed.
